@@ -75,6 +75,16 @@ func corruptions(rd *gen.Rendered) []corruption {
 		if depth > 0 && i+1 < len(toks) {
 			out = append(out, corruption{"after " + tokClass(&toks[i]), "truncate", src[:t.End], fmt.Sprintf("after token #%d %q, inside %d open pair(s)", i, t.Text, depth), i})
 		}
+		// the quantifier says "every truncation point": also at token boundaries outside any bracket (`let x =`, `a +`,
+		// `if (c)`), and inside numeric literals and multi-character operators (`0x`, `1e`, `1.`, `+` of `+=`)
+		if depth == 0 && i+1 < len(toks) && !t.Virtual {
+			out = append(out, corruption{"after " + tokClass(&toks[i]), "truncate", src[:t.End], fmt.Sprintf("after token #%d %q, at top level", i, t.Text), i})
+		}
+		if (t.Kind == gen.TNum || t.Kind == gen.TPunct) && t.End-t.Off > 1 {
+			for o := t.Off + 1; o < t.End; o++ {
+				out = append(out, corruption{"inside " + tokClass(&toks[i]), "truncate", src[:o], fmt.Sprintf("inside token #%d %q at offset %d", i, t.Text, o), i - 1})
+			}
+		}
 	}
 	return out
 }
@@ -125,6 +135,12 @@ func runC12(t *fw.T, prog *gen.Node, lay NamedLayout) {
 				p := b.Build(c.text)
 				prog, err := p.ParseProgram()
 				po = ParseOut{Prog: prog, Err: err, Errors: p.Errors(), P: p}
+				return
+			}
+			if i%4 == 2 && !hasLineLeadingBracket(c.text) {
+				// strict mode with smart semicolons on: the text has no '(' / '[' first on a line, so smart mode reads it
+				// exactly like the default mode (C13) and a text that is not JavaScript must be reported all the same
+				po = parse(c.text, Mode{Smart: true})
 				return
 			}
 			if i%4 == 1 {
